@@ -550,7 +550,7 @@ def c18(prop, tier, seed):
                 continue
             a, v = orc.strip(obs[m["base"]]), orc.strip(obs[m["var"]])
             for ins in m["insertions"]:
-                key = "site:%s|%s|%s" % (ins["site"], ins["name_class"], ins["kind"])
+                key = "site:%s|%s|%s|%s" % (ins["site"], ins["name_class"], ins["kind"], ins.get("form", ""))
                 cover[key] = cover.get(key, 0) + 1
             if a.get("open") != "ok":
                 res.inconclusive.append({"why": "baseline file of a pair does not open", "i": m["i"], "err": str(a)[:200]})
@@ -574,7 +574,7 @@ def c18(prop, tier, seed):
         res.merge(run_shards(b, "roundtrip", ["--mode", "c18"], cases, secs, seed, tier, wd, "extattr", prop))
     finally:
         cleanup(wd)
-    rule = ("(a) scenes encoded twice with the same layout by the independent encoder: once plain, once with 1-5 elements of a foreign namespace inserted at 14 kinds of sites outside prototypes (before/after/between standard siblings at root, data3D, point cloud and image level), with local names equal to standard names (52 names) or random, as leaves of every type, vectors, structures and structures mimicking whole standard subtrees, plus foreign attributes on the root; the reader's dumps (minus XML text, header lengths, extension list) must be identical; "
+    rule = ("(a) scenes encoded twice with the same layout by the independent encoder: once plain, once with 1-5 elements of a foreign namespace inserted at 14 kinds of sites outside prototypes (before/after/between standard siblings at root, data3D, point cloud and image level), with local names equal to standard names (52 names) or random, as leaves of every type, vectors, structures and structures mimicking whole standard subtrees, in three namespace forms (prefix declared on the root, prefix declared locally, default namespace redeclared on the element), plus foreign attributes - also named like standard attributes (fileOffset, length, recordCount, type ...) in front of or behind the standard ones - on the root and on standard elements; the reader's dumps (minus XML text, header lengths, extension list) must be identical; "
             "(b) writer programs whose prototypes carry extension attributes over all accepted names and namespaces, half of them named like standard attributes; prototype, values and all standard descriptors must read back unchanged; non-trivial = pair compared / program read back; distinct = distinct (site, name class, element kind) cells + pairs")
     distinct = len([k for k in cover if k.startswith("site:")]) + res.stats.get("pairs_compared", 0)
     extra = {"pairs_compared": res.stats.get("pairs_compared", 0), "insertion_cells": len([k for k in cover if k.startswith("site:")]), "ext_attr_programs": res.stats.get("programs", 0), "ext_attrs_with_standard_names": res.cover.get("ext-attr:standard-name", 0), "ext_attrs_other": res.cover.get("ext-attr:other-name", 0)}
